@@ -3,12 +3,14 @@
    repair 2f5e8c6, FX_ALL = also fixes/C18-trie-removed-parked.patch and fixes/C18-trie-split-keeps-node.patch); the
    dictionary theorems hold for every variant that has the trie_rm repair.
    Proved for ALL histories: no error state and get / rm / count answer like a dictionary, also when notifier
-   registrations create and release value-less nodes in between.  NOT proved here (checked on generated scripts
-   against the implementation by the monitor of vlib/maptrie.py, see reports/maptrie.md): completeness and order of
-   iteration, prefix iteration, the notifier calls made, value release at destroy. *)
+   registrations create and release value-less nodes in between; complete / abandoned qb_map_foreach visits every
+   present key exactly once.  NOT proved here (checked on generated scripts against the implementation by the
+   monitor of vlib/maptrie.py, see reports/maptrie.md): the ORDER of the visits as a statement about keys (the
+   traversal is proved to be the pre-order of present nodes), prefix iteration, the notifier calls made, destroy. *)
 From Coq Require Import List ZArith.
 Require Import Verif.gen.Consts_trie Verif.MapTrieModel Verif.MapTrieSpec Verif.MapTrieProofs Verif.MapTrieProofs2
-               Verif.MapTrieProofs3 Verif.MapTrieRefuted.
+               Verif.MapTrieProofs3 Verif.MapTrieRefuted Verif.MapTrieIter Verif.MapTrieIds Verif.MapTrieIter4
+               Verif.MapTrieIter6.
 Import ListNotations.
 
 (* TRIE_CHAR2INDEX as modelled equals the macro of the working tree on all 256 byte values (table regenerated
@@ -54,6 +56,32 @@ Theorem C17T_dictionary_with_notifier_nodes : forall fx hs, f_rm fx = true -> Fo
                   dict_outs hs (map fst outs) = fst (spec_run [] (dict_part hs)).
 Proof. exact trie_refines_dict_with_notifiers. Qed.
 Print Assumptions C17T_dictionary_with_notifier_nodes.
+
+(* trie_node_next (every tree, every position): the result is exactly the next PRESENT node of the pre-order list
+   (children from the highest index down), None exactly when there is none *)
+Theorem C17T_node_next_is_preorder_successor : forall t rel,
+  match next_t t rel with
+  | Some p => p <> [] /\ exists tn, get_at t p = Some tn /\ alive tn = true /\ after_t t rel = t_info tn :: after_t t p
+  | None => after_t t rel = []
+  end.
+Proof. exact (proj1 next_spec). Qed.
+Print Assumptions C17T_node_next_is_preorder_successor.
+
+(* node ids (= what a pointer held by an iterator denotes) are unique, so find_t returns the very node *)
+Theorem C17T_pointer_denotes_its_node : forall p n tn, (forall x, cnt_t n x <= 1) -> get_at n p = Some tn ->
+  find_t n (n_id (t_info tn)) = Some p.
+Proof. exact find_unique. Qed.
+Print Assumptions C17T_pointer_denotes_its_node.
+
+(* ITERATION, all histories: dictionary operations, notifier registrations and qb_map_foreach calls (complete, or
+   abandoned by the callback at its stop-th call) in any order: no error state - the traversal loops of lib/map.c /
+   trie_node_next never run out of fuel -, dictionary answers as above, and every traversal visits the first [stop]
+   entries (all for stop = 0) of a duplicate-free enumeration of exactly the present keys with their values
+   (hist_ok / enum in MapTrieIter6.v), leaving the map and every reference count as they were *)
+Theorem C17T_foreach_all_histories : forall fx hs, f_rm fx = true -> Forall iop_valid hs ->
+  exists outs t', run fx trie_init (map iop_op hs) = (outs, Ok t') /\ hist_ok [] hs outs.
+Proof. exact trie_foreach_all_histories. Qed.
+Print Assumptions C17T_foreach_all_histories.
 
 (* the code AS FOUND violates it: rm("ab") after put("abc"), put("abd") reports success and the count drops
    (replayed on the real library; repaired by fixes/C17-trie-rm-alive.patch) - the hypotheses of the theorem
